@@ -187,8 +187,26 @@ Definition dec_lop (v : val) : option lop :=
   | _ => option_map LOp (dec_cop v)
   end.
 
-Definition obs_of {S} (r : res (S * list val)) : option val :=
-  match r with Ok (_, o) => Some (VL o) | _ => None end.
+(* the previous user's calls: one that panics (Parse on "%" followed by byte 0xFF) leaves the real
+   object half-updated; the model keeps the state before that call - any state will do, by
+   C20_*_recycled_like_fresh *)
+Fixpoint run_dirty {S O : Type} (step : S -> O -> res (S * list val)) (s : S) (ops : list O) : S :=
+  match ops with
+  | [] => s
+  | o :: r => match step s o with Ok (s', _) => run_dirty step s' r | _ => run_dirty step s r end
+  end.
+
+(* the next user's calls: everything returned, up to and including the first panic *)
+Fixpoint run_obs {S O : Type} (step : S -> O -> res (S * list val)) (s : S) (ops : list O) : list val :=
+  match ops with
+  | [] => []
+  | o :: r =>
+      match step s o with
+      | Ok (s', obs) => obs ++ run_obs step s' r
+      | Panic => [vsym "panic"]
+      | Err => [vsym "error"]
+      end
+  end.
 
 Definition dec_conn (v : val) : option (N * bytes * option N) :=
   match v with
@@ -202,38 +220,30 @@ Definition run (inp : val) : option val :=
       if sym_eqb kind "args" then
         match dec_list dec_aop d, dec_list dec_aop l with
         | Some dops, Some lops =>
-            match Pools.run (args_step gpol) args_fresh dops with
-            | Ok (dirty, _) => obs_of (Pools.run (args_step gpol) (args_reset dirty) lops)
-            | _ => None
-            end
+            let dirty := run_dirty (args_step gpol) args_fresh dops in
+            Some (VL (run_obs (args_step gpol) (args_reset dirty) lops))
         | _, _ => None
         end
       else if sym_eqb kind "msg" then
         match dec_list dec_mop d, dec_list dec_mop l with
         | Some dops, Some lops =>
-            match Pools.run (msg_step gpol registered size_limit filter_pack) msg_fresh dops with
-            | Ok (dirty, _) => obs_of (Pools.run (msg_step gpol registered size_limit filter_pack) (msg_reset dirty) lops)
-            | _ => None
-            end
+            let dirty := run_dirty (msg_step gpol registered size_limit filter_pack) msg_fresh dops in
+            Some (VL (run_obs (msg_step gpol registered size_limit filter_pack) (msg_reset dirty) lops))
         | _, _ => None
         end
       else if sym_eqb kind "xfer" then
         match dec_list dec_xop d, dec_list dec_xop l with
         | Some dops, Some lops =>
-            match Pools.run xp_step xp_fresh dops with
-            | Ok (dirty, _) => obs_of (Pools.run xp_step (xp_reset dirty) lops)
-            | _ => None
-            end
+            let dirty := run_dirty xp_step xp_fresh dops in
+            Some (VL (run_obs xp_step (xp_reset dirty) lops))
         | _, _ => None
         end
       else if sym_eqb kind "bb" then
         match dec_list dec_bop d, dec_list dec_bop l with
         | Some dops, Some lops =>
             let st := fun b o => Ok (bb_step gpol b o) in
-            match Pools.run st (bb_fresh 0) dops with
-            | Ok (dirty, _) => obs_of (Pools.run st (bb_put dirty) lops)
-            | _ => None
-            end
+            let dirty := run_dirty st (bb_fresh 0) dops in
+            Some (VL (run_obs st (bb_put dirty) lops))
         | _, _ => None
         end
       else None
@@ -242,10 +252,8 @@ Definition run (inp : val) : option val :=
         match dec_conn c0, dec_list dec_sop d, dec_conn c1, dec_list dec_sop l with
         | Some (n0, d0, p0), Some dops, Some (n1, d1, p1), Some lops =>
             let st := fun s o => Ok (sock_step s o) in
-            match Pools.run st (sock_get sock_pool_new n0 d0 p0) dops with
-            | Ok (dirty, _) => obs_of (Pools.run st (sock_get (sock_close dirty) n1 d1 p1) lops)
-            | _ => None
-            end
+            let dirty := run_dirty st (sock_get sock_pool_new n0 d0 p0) dops in
+            Some (VL (run_obs st (sock_get (sock_close dirty) n1 d1 p1) lops))
         | _, _, _, _ => None
         end
       else None
@@ -253,11 +261,8 @@ Definition run (inp : val) : option val :=
       if sym_eqb kind "ctx" then
         match dec_list dec_kv sw, dec_list dec_lop d, dec_list dec_lop l with
         | Some swap, Some dops, Some lops =>
-            match Pools.run lstep (ctx_get ctx_new sess swap) dops with
-            | Ok (dirty, _) =>
-                obs_of (Pools.run lstep (ctx_get dirty sess swap) lops)
-            | _ => None
-            end
+            let dirty := run_dirty lstep (ctx_get ctx_new sess swap) dops in
+            Some (VL (run_obs lstep (ctx_get dirty sess swap) lops))
         | _, _, _ => None
         end
       else None
